@@ -1,8 +1,9 @@
 #!/usr/bin/env bash
-# run_campaign.sh C02 — thorough tier of C02: proptest thorough run + fixed-work libFuzzer campaign.
+# run_campaign.sh C02|C29 — thorough tier of C02 / C29: proptest thorough run + fixed-work libFuzzer campaign
+# (C02: target `decode`, seeds from `mkcorpus`; C29: target `vm`, seeds from `mkcorpus_vm`).
 #
 #   exit 0  held on everything explored
-#   exit 1  VIOLATION property=C02 replay=<path>   (printed by fvverif or by this script)
+#   exit 1  VIOLATION property=<id> replay=<path>   (printed by fvverif or by this script)
 #   exit 2  build problem / inconclusive (never reported as a violation)
 #
 # Layout is taken from the script's own location: ROOT=<dir of this script>/.. must contain
@@ -12,10 +13,16 @@
 set -u
 
 PROP="${1:-}"
-if [ "$PROP" != "C02" ]; then
-    echo "usage: $0 C02" >&2
-    exit 2
-fi
+case "$PROP" in
+    C02) TARGET=decode; MKCORPUS=mkcorpus;    SEEDS=48;  DEFAULT_RUNS=150000; MAXLEN=4096 ;;
+    # vm: ~60-300 executions/s per process under ASAN (each execution signs, checks and single-steps
+    # a transaction); 20 000 runs x 16 processes is sized to about 5-10 minutes (measured: 480 000 runs in 16 min on a loaded host)
+    C29) TARGET=vm;     MKCORPUS=mkcorpus_vm; SEEDS=160; DEFAULT_RUNS=20000;  MAXLEN=8192 ;;
+    *)
+        echo "usage: $0 C02|C29" >&2
+        exit 2
+        ;;
+esac
 
 HERE="$(cd "$(dirname "${BASH_SOURCE[0]}")" && pwd)"
 ROOT="$(cd "$HERE/.." && pwd)"
@@ -24,8 +31,7 @@ export VERIF_ROOT="${VERIF_ROOT:-$ROOT}"
 export CARGO_NET_OFFLINE=true
 SEED="${VERIF_SEED:-0}"
 WORKERS="${FUZZ_WORKERS:-16}"
-RUNS="${FUZZ_RUNS:-150000}"
-TARGET=decode
+RUNS="${FUZZ_RUNS:-$DEFAULT_RUNS}"
 WORK="$HERE/work/$PROP"
 EVID="$VERIF_ROOT/evidence/$PROP.json"
 
@@ -58,7 +64,7 @@ fi
 # ---------------------------------------------------------------- 3. fresh seed corpus
 rm -rf "$WORK"
 mkdir -p "$WORK/seed"
-if ! "$HARNESS/target/release/mkcorpus" "$WORK/seed" 48 >"$WORK/mkcorpus.log" 2>&1; then
+if ! "$HARNESS/target/release/$MKCORPUS" "$WORK/seed" "$SEEDS" >"$WORK/mkcorpus.log" 2>&1; then
     echo "INCONCLUSIVE property=$PROP seed corpus generation failed, see $WORK/mkcorpus.log"
     exit 2
 fi
@@ -70,7 +76,7 @@ for i in $(seq 1 "$WORKERS"); do
     mkdir -p "$WORK/corpus$i" "$WORK/artifacts$i"
     cp "$WORK/seed"/* "$WORK/corpus$i/"
     S=$(( (SEED % 1000000) * 1000 + i ))          # never 0: libFuzzer treats -seed=0 as "random"
-    "$BIN" "$WORK/corpus$i" -runs="$RUNS" -seed="$S" -len_control=0 -max_len=4096 \
+    "$BIN" "$WORK/corpus$i" -runs="$RUNS" -seed="$S" -len_control=0 -max_len="$MAXLEN" \
         -malloc_limit_mb=0 -rss_limit_mb=0 -timeout=600 -print_final_stats=1 \
         -artifact_prefix="$WORK/artifacts$i/" >"$WORK/fuzz$i.log" 2>&1 &
     PIDS+=($!)
@@ -82,9 +88,11 @@ done
 T1=$(date +%s)
 
 # ---------------------------------------------------------------- 5. collect
-# every artifact is copied to replays/C02-fuzz-<hash>.bin (raw libFuzzer input: selector byte +
-# bytes) and converted to replays/C02-fuzz-<hash>.json, a case of part "raw-bytes" that
-# `fvverif C02 --replay` (and every later quick run) re-executes with the same oracle.
+# every artifact is copied to replays/<id>-fuzz-<hash>.bin (raw libFuzzer input) and converted to
+# replays/<id>-fuzz-<hash>.json: for C02 a case of part "raw-bytes" (selector byte + bytes), for
+# C29 a case of part "raw-worlds" (header bytes -> schedule / gas limit / contracts, see
+# fuzz_targets/vm.rs), which `fvverif <id> --replay` (and every later quick run) re-executes
+# with the same oracle.
 # Not crashes: slow-unit-* (libFuzzer's report of an execution slower than 10 s: with ASAN the
 # address-space reservations of observation O1 cost shadow-memory work and, with many processes,
 # kernel mmap contention) — counted and reported only. timeout-* makes the run inconclusive.
@@ -100,13 +108,40 @@ for f in "$WORK"/artifacts*/crash-* "$WORK"/artifacts*/leak-* "$WORK"/artifacts*
     DEST="$VERIF_ROOT/replays/$PROP-fuzz-$H.bin"
     cp "$f" "$DEST"
     JSON="$VERIF_ROOT/replays/$PROP-fuzz-$H.json"
-    if python3 - "$DEST" "$JSON" "$SEED" <<'PY'
+    if python3 - "$DEST" "$JSON" "$SEED" "$PROP" <<'PY'
 import json, sys
 data = open(sys.argv[1], "rb").read()
-case = {"src": {"Raw": data[1:].hex()}, "muts": [], "cross": None}
-json.dump({"property": "C02", "part": "raw-bytes", "seed": int(sys.argv[3]), "shard": 0,
-           "key": "c02:fuzz-crash", "message": "libFuzzer artifact %s (selector byte %d)" % (sys.argv[1], data[0] if data else -1),
-           "case": case}, open(sys.argv[2], "w"), indent=2)
+prop = sys.argv[4]
+if prop == "C02":
+    part = "raw-bytes"
+    case = {"src": {"Raw": data[1:].hex()}, "muts": [], "cross": None}
+    msg = "libFuzzer artifact %s (selector byte %d)" % (sys.argv[1], data[0] if data else -1)
+else:
+    # layout of fuzz_targets/vm.rs
+    if len(data) < 8:
+        sys.exit(1)
+    h, rest = data[:8], data[8:]
+    def take(n):
+        global rest
+        a, rest = rest[:n], rest[n:]
+        return a
+    gas = [0, 60, 600, 6000, 40000, 200000][h[1] % 6]
+    sched = "Default" if (h[0] & 7) < 6 else {"Random": h[2]}
+    script = take(h[4] | (h[5] << 8))
+    sdata = take(h[6] | (h[7] << 8))
+    contracts = []
+    n = h[3] % 3
+    if n >= 1:
+        l = take(2)
+        contracts.append(take((l[0] | (l[1] << 8)) if len(l) == 2 else 0))
+    if n == 2:
+        contracts.append(rest)
+    part = "raw-worlds"
+    case = {"sched": sched, "gas_limit": gas, "script": script.hex(), "data": sdata.hex(),
+            "contracts": [c.hex() for c in contracts], "balance": 0}
+    msg = "libFuzzer artifact %s (target vm)" % sys.argv[1]
+json.dump({"property": prop, "part": part, "seed": int(sys.argv[3]), "shard": 0,
+           "key": prop.lower() + ":fuzz-crash", "message": msg, "case": case}, open(sys.argv[2], "w"), indent=2)
 PY
     then DEST="$JSON"; fi
     [ -n "$FIRST" ] || FIRST="$DEST"
@@ -116,14 +151,15 @@ CORPUS=$(find "$WORK" -path '*/corpus*/*' -type f 2>/dev/null | wc -l)
 SECS=$((T1 - T0))
 
 if [ -f "$EVID" ]; then
-    python3 - "$EVID" "$EXECS" "$CRASHES" "$CORPUS" "$SECS" "$WORKERS" "$RUNS" "$SLOW" "$TIMEOUTS" <<'PY' || echo "note: could not patch $EVID" >&2
+    python3 - "$EVID" "$EXECS" "$CRASHES" "$CORPUS" "$SECS" "$WORKERS" "$RUNS" "$SLOW" "$TIMEOUTS" "$TARGET" "$MAXLEN" <<'PY' || echo "note: could not patch $EVID" >&2
 import json, sys
 path, execs, crashes, corpus, secs, workers, runs, slow, timeouts = sys.argv[1], *map(int, sys.argv[2:10])
+target, maxlen = sys.argv[10], sys.argv[11]
 ev = json.load(open(path))
 ev.setdefault("coverage", {})["fuzz"] = {
-    "target": "decode", "runs": execs, "crashes": crashes, "corpus_size": corpus, "seconds": secs,
+    "target": target, "runs": execs, "crashes": crashes, "corpus_size": corpus, "seconds": secs,
     "processes": workers, "runs_per_process": runs, "slow_units_over_10s": slow, "timeouts": timeouts,
-    "flags": "-len_control=0 -max_len=4096 -malloc_limit_mb=0 -rss_limit_mb=0",
+    "flags": "-len_control=0 -max_len=%s -malloc_limit_mb=0 -rss_limit_mb=0" % maxlen,
 }
 json.dump(ev, open(path, "w"), indent=2)
 PY
